@@ -13,6 +13,7 @@ import DateutilVerif.Proofs.ParserGenHms
 import DateutilVerif.Proofs.ParserGenNum
 import DateutilVerif.Proofs.ParserGenStep
 import DateutilVerif.Proofs.ParserGenNaive
+import DateutilVerif.Proofs.ParserGenLoop
 
 namespace ParserGen
 open PM Py
@@ -175,6 +176,20 @@ theorem gen_eq_model_parse_step_partial (cls : Char → CClass) (info : Info) (f
       (PM.parseStep cls info fuzzy l.length i { l := l, res := res, ymd := ymd, skipped := skipped }).map
         (fun r => (r.2.l, i + r.1 + 1, r.2.res, r.2.ymd, r.2.skipped)) :=
   PGen.parseStep_eq cls info fuzzy l i res ymd skipped hc
+
+/-- the `while i < len_l:` loop of `parser._parse` as written now (a fuel-bounded recursion over the translated body), started
+    the way `_parse` starts it (`i = 0`, empty result, empty `_ymd`, no skipped tokens) with at least as much fuel as there
+    are tokens: never out of fuel, and the token list / result record / `_ymd` / skip list (or the exception) are those of the
+    model's loop `PM.parseLoop` as `parseTry` calls it.  Same `_century ≥ 100` hypothesis as the body. -/
+theorem gen_eq_model_parse_loop_partial (cls : Char → CClass) (info : Info) (fuzzy : Bool) (l : List Token) (fuel : Nat)
+    (hc : 100 ≤ info.century) (hf : l.length ≤ fuel) :
+    (Gen.P.parseLoop fuel cls info l 0 l.length {} {} [] fuzzy).map PGen.loopOut =
+      PM.parseLoop cls info fuzzy l.length l.length 0 0 { l := l } :=
+  PGen.parseLoop_eq cls info fuzzy hc fuel { l := l } 0 (by simpa using hf)
+
+-- the hypotheses are satisfiable (the stock parserinfo of any year from 100 on; fuel = number of tokens)
+example : (100 : Int) ≤ (Info.default false false 2026 2000).century ∧ ([tk "10", tk " ", tk "pm"] : List Token).length ≤ 3 := by
+  decide
 
 example : Gen.P.parseStep asciiCls (Info.default false false 2026 2000) [tk "GMT", tk "+", tk "3"] 0 3 { hour := some 10 } {} [] false
     = .ok ([tk "GMT", tk "-", tk "3"], 1, { hour := some 10 }, {}, []) := by decide
